@@ -567,7 +567,17 @@ func g7roSweep(r g7rnd, v reflect.Value, path string, depth int, report func(sig
 	before := own()
 	for i, c := range calls {
 		*count++
-		if !g7panics(c) {
+		panicked := g7panics(c)
+		if g7hook != nil {
+			role, nm := "recv", names[i]
+			if strings.HasSuffix(nm, "[as destination]") {
+				role, nm = "dest", strings.TrimSuffix(nm, "[as destination]")
+			} else if nm == "CopyTo" {
+				role = "dest"
+			}
+			g7hook(t, nm, role, "mut", panicked)
+		}
+		if !panicked {
 			report("C07/allmsgs/mutator-on-read-only-did-not-panic", path+"."+names[i])
 		}
 		if small {
@@ -587,7 +597,11 @@ func g7roSweep(r g7rnd, v reflect.Value, path string, depth int, report func(sig
 		for _, n := range g7methods(t) {
 			m := v.MethodByName(n)
 			if !g7skip[n] && m.Type().NumIn() == 0 && m.Type().NumOut() == 1 && g7basic(m.Type().Out(0)) {
-				if g7panics(func() { m.Call(nil) }) {
+				panicked := g7panics(func() { m.Call(nil) })
+				if g7hook != nil {
+					g7hook(t, n, "recv", "read", panicked)
+				}
+				if panicked {
 					report("C07/readonly/reader-panicked/"+tn+"."+n, path+"."+n)
 				}
 			}
@@ -598,7 +612,11 @@ func g7roSweep(r g7rnd, v reflect.Value, path string, depth int, report func(sig
 		g7fill(r, dst, 8)
 		d0 := g7str(dst)
 		g7copied[tn]++
-		if g7panics(func() { v.MethodByName("CopyTo").Call([]reflect.Value{dst}) }) {
+		cpPanicked := g7panics(func() { v.MethodByName("CopyTo").Call([]reflect.Value{dst}) })
+		if g7hook != nil {
+			g7hook(t, "CopyTo", "src", "read", cpPanicked)
+		}
+		if cpPanicked {
 			report("C07/readonly/reader-panicked/"+tn+".CopyTo", path+".CopyTo(<mutable destination>)")
 			if g7str(dst) != d0 {
 				report("C07/readonly/panicking-op-changed-something/"+tn+".CopyTo", path+".CopyTo(<mutable destination>)")
@@ -619,7 +637,78 @@ func g7roSweep(r g7rnd, v reflect.Value, path string, depth int, report func(sig
 		if strings.HasPrefix(labels[i], "Exemplars") {
 			g7copied["exemplars_under_"+tn]++
 		}
+		acc := labels[i]
+		if k := strings.Index(acc, "("); k >= 0 {
+			acc = acc[:k]
+		}
+		g7stack = append(g7stack, acc)
 		g7roSweep(r, c, path+"."+labels[i], depth+1, report, count)
+		g7stack = g7stack[:len(g7stack)-1]
+	}
+}
+
+// g7hook, when set, is told of EVERY call the read-only sweep makes (type at the position, method, role of the position in the
+// call, mutator or reader, did it panic); g7stack = the accessor names leading from the payload to the position
+var g7hook func(t reflect.Type, meth, role, kind string, panicked bool)
+var g7stack []string
+
+// TestVerifC07RoState: the read-only sweep as a differential against the Lean state-propagation model (model c07-state): the Lean side
+// follows the same accessor path through the method table regenerated from the source (whose state each child wrapper gets) and
+// runs the leading AssertMutable statements of the called method (whose state each checks)
+func TestVerifC07RoState(t *testing.T) {
+	out := vOpen(t)
+	defer out.Close()
+	out.Linef("model c07-state 1")
+	g7init()
+	type g7entry = struct {
+		name string
+		mk   func() any
+	}
+	var payloads []g7entry
+	for _, e := range g7table {
+		if g7has(reflect.TypeOf(e.mk()), "MarkReadOnly") {
+			payloads = append(payloads, e)
+		}
+	}
+	n := vN(len(payloads) * 3)
+	for _, c := range vCases(n) {
+		rnd := vRand(c)
+		ent := payloads[c%len(payloads)]
+		out.Linef("case %d type=%s", c, ent.name)
+		p := reflect.ValueOf(ent.mk())
+		for i := 0; i < 2; i++ {
+			g7fill(rnd, p, 0)
+		}
+		g7force = true
+		g7fill(rnd, p, 0)
+		g7force = false
+		before := g7str(p)
+		p.MethodByName("MarkReadOnly").Call(nil)
+		calls := 0
+		g7stack = g7stack[:0]
+		g7hook = func(t reflect.Type, meth, role, kind string, panicked bool) {
+			path := "-"
+			if len(g7stack) > 0 {
+				path = strings.Join(g7stack, "/")
+			}
+			out.Linef("op call root=%s path=%s type=%s meth=%s role=%s kind=%s", ent.name, path, t.String(), meth, role, kind)
+			out.Linef("obs panicked=%d", map[bool]int{false: 0, true: 1}[panicked])
+			calls++
+		}
+		count := 0
+		g7roSweep(rnd, p, p.Type().Name(), 0, func(sig, call string) { out.Linef("viol sig=%s type=%s call=%s", sig, ent.name, call) }, &count)
+		g7hook = nil
+		if got := g7str(p); got != before {
+			out.Linef("viol sig=C07/state/read-only-payload-changed type=%s", ent.name)
+		}
+		out.Linef("stat state_calls %d", calls)
+		g7visited = map[string]int{}
+		g7copied = map[string]int{}
+		if calls > 0 {
+			out.Linef("nt")
+		}
+		out.Linef("end")
+		out.Flush()
 	}
 }
 
